@@ -199,6 +199,194 @@ def compare_kernels(chk, cases, rtol):
     return bad
 
 
+# ---- representations of the position argument (added after seeded change C18d)
+# Every kernel case above hands the callables a float64 ndarray (impl_callable converts), the failing-input search took
+# finite differences with float offsets: a change that makes the OUTPUT depend on the dtype / container of the position
+# (C18d: `np.zeros_like(x)` in _corner_2d truncates the velocity for integer positions -- the style of the module's
+# own doctests) was invisible to both.  The callables are now also applied to the SAME point in other representations.
+REPRESENTATIONS = ("int64", "int32", "int16", "float32", "float16", "list_float", "list_int", "tuple_float", "tuple_int",
+                   "noncontiguous", "readonly", "zero_d_elements", "numpy_scalars", "fortran_column")
+INT_REPRESENTATIONS = ("int64", "int32", "int16", "list_int", "tuple_int")
+MAY_BE_REJECTED = ("float16",)          # numba has no float16 on the CPU: both callables raise NotImplementedError
+TIME_REPRESENTATIONS = ("nan", "zero_d", "int", "float32")
+
+
+def present(x, rep):
+    """the point x (integer-valued floats) in representation `rep`"""
+    xf = np.array([float(a) for a in x])
+    if rep in ("int64", "int32", "int16", "float32", "float16"):
+        return xf.astype(rep)
+    if rep == "list_float":
+        return [float(a) for a in xf]
+    if rep == "list_int":
+        return [int(a) for a in xf]
+    if rep == "tuple_float":
+        return tuple(float(a) for a in xf)
+    if rep == "tuple_int":
+        return tuple(int(a) for a in xf)
+    if rep == "noncontiguous":
+        big = np.full((3, 2), 7.5)
+        big[:, 0] = xf
+        return big[:, 0]
+    if rep == "fortran_column":
+        return np.asfortranarray(np.stack([xf + 1.0, xf], axis=1))[:, 1]
+    if rep == "readonly":
+        xf.setflags(write=False)
+        return xf
+    if rep == "zero_d_elements":
+        return [np.array(float(a)) for a in xf]
+    if rep == "numpy_scalars":
+        return [np.float64(a) for a in xf]
+    return xf
+
+
+def present_time(rep):
+    return {"nan": float("nan"), "zero_d": np.array(0.5), "int": 0, "float32": np.float32(1.5)}[rep]
+
+
+def rep_rtol(rep):
+    return 1e-5 if rep == "float32" else 1e-12        # float32 positions are computed with in float32
+
+
+def lattice_points(flow, h, v, rng, n):
+    """integer-valued points inside the domain of the flow, far enough from the singular point / with a cell large enough
+    for central differences over lattice neighbours (spacing 1) to approximate the Jacobian to 1e-4; params"""
+    pts = []
+    o = 3 - h - v
+    for k in range(n):
+        x = np.zeros(3)
+        if flow == 0:
+            ps = [float(rng.choice([0.75, -2.0, 1e-4]))]
+            x[:] = rng.integers(-50, 50, 3)
+        elif flow == 1:
+            ps = [float(rng.choice([0.75, -2.0])), 4000.0]
+            x[:] = rng.integers(-1900, 1900, 3)
+        else:
+            ps = [float(rng.choice([1.0, 3.5, -2.0]))]
+            fixed = [(300, -400), (1200, -50), (-700, -900), (25, -2000), (0, -150), (400, 0)]
+            x[h], x[v] = fixed[k % len(fixed)] if k < len(fixed) else (int(rng.integers(-2000, 2000)), -int(rng.integers(100, 2000)))
+            x[o] = int(rng.integers(-5, 5))
+        pts.append((ps, x))
+    return pts
+
+
+def oracle_representation(flow, hl, vl, ps, x, rep, trep="nan"):
+    """The property on the public API for ONE representation of one (integer-valued) point: the callables must not depend on
+    how the point is represented, and -- integer representations -- the gradient callable must be the Jacobian of the velocity
+    callable formed from lattice neighbours IN THAT REPRESENTATION.  Returns failure strings (known findings filtered)."""
+    fails = []
+    u, L = make_flow(flow, hl, vl, ps)
+    t = present_time(trep)
+    xf = np.array([float(a) for a in np.asarray(present(x, rep) if rep != "zero_d_elements" else x, dtype=float)])
+    try:
+        ref_u, ref_L = np.asarray(u(np.nan, xf), dtype=float), np.asarray(L(np.nan, xf), dtype=float)
+    except ValueError:
+        return fails                       # outside the domain of the flow
+    out = {}
+    for name, f in (("velocity", u), ("gradient", L)):
+        try:
+            with warnings.catch_warnings():
+                warnings.simplefilter("ignore")
+                out[name] = ("OK", np.asarray(f(t, present(x, rep))))
+        except Exception as e:  # noqa: BLE001
+            out[name] = ("ERR", f"{type(e).__name__}: {str(e)[:80]}")
+    if out["velocity"][0] == "ERR" or out["gradient"][0] == "ERR":
+        if rep in MAY_BE_REJECTED and out["velocity"][0] == out["gradient"][0] == "ERR":
+            return fails
+        return [f"{FLOWS[flow]}({hl!r}, {vl!r}, *{ps}): position {list(x)} as {rep}: velocity callable -> {out['velocity'][1] if out['velocity'][0] == 'ERR' else 'returns'}, "
+                f"gradient callable -> {out['gradient'][1] if out['gradient'][0] == 'ERR' else 'returns'}"]
+    scale_u = max(float(np.abs(ref_u).max()), abs(ps[0]) * 1e-12)
+    scale_L = max(float(np.abs(ref_L).max()), abs(ps[0]) * 1e-300)
+    for name, ref, sc in (("velocity", ref_u, scale_u), ("gradient", ref_L, scale_L)):
+        got = out[name][1]
+        if got.shape != ref.shape or not np.all(np.abs(got.astype(float) - ref) <= rep_rtol(rep) * sc):
+            fails.append(f"{FLOWS[flow]}({hl!r}, {vl!r}, *{ps}): the {name} callable depends on the representation of the point: "
+                         f"{list(x)} as {rep} (time as {trep}) -> {got.reshape(-1).tolist()[:9]} (dtype {got.dtype}), as float64 -> {ref.reshape(-1).tolist()[:9]}")
+    if rep in INT_REPRESENTATIONS and not fails:
+        J = np.zeros((3, 3))
+        try:
+            for k in range(3):
+                e = np.zeros(3); e[k] = 1.0
+                J[:, k] = (np.asarray(u(t, present(x + e, rep)), dtype=float) - np.asarray(u(t, present(x - e, rep)), dtype=float)) / 2.0
+        except ValueError:
+            return fails
+        # the natural size of the gradient at this point (U / r, U pi / d, rate): on the axis h = 0 of the corner flow every
+        # entry of L is exactly 0 and the lattice quotient is its own truncation error (false alarm of the first version)
+        sc = max(float(np.abs(ref_L).max()), float(np.abs(J).max()), scale_of(("gradient", flow, hl, vl, ps, 0.0, [float(a) for a in x])))
+        if np.abs(J - ref_L).max() > 1e-3 * sc:
+            k, m = np.unravel_index(np.abs(J - ref_L).argmax(), (3, 3))
+            msg = (f"{FLOWS[flow]}({hl!r}, {vl!r}, *{ps}): gradient[{k},{m}] = {ref_L[k, m]!r} but the Jacobian of the velocity callable from "
+                   f"lattice neighbours of {list(x)} ({rep}) has d u_{k} / d x_{m} = {J[k, m]!r}")
+            if not explained_by_finding(flow, hl, vl, ps, xf, msg):
+                fails.append(msg)
+    return fails
+
+
+def gen_representation_cases(rng, tier):
+    """(flow, hl, vl, ps, x, rep, trep): every representation for every flow on two axis pairs; all six axis pairs and the
+    time representations with int64 positions"""
+    cases = []
+    npts = 2 if tier == "quick" else 12
+    for flow in range(3):
+        for (h, v) in (PAIRS if tier != "quick" else [PAIRS[1], PAIRS[int(rng.integers(6))]]):
+            for (ps, x) in lattice_points(flow, h, v, rng, npts):
+                for rep in REPRESENTATIONS:
+                    cases.append((flow, LETTERS[h], LETTERS[v], ps, x, rep, "nan"))
+        for (h, v) in PAIRS:
+            for (ps, x) in lattice_points(flow, h, v, rng, 6 if flow == 2 else 1):
+                cases.append((flow, LETTERS[h], LETTERS[v], ps, x, "int64", "nan"))
+        (ps, x) = lattice_points(flow, 0, 2, rng, 1)[0]
+        for trep in TIME_REPRESENTATIONS[1:]:
+            cases.append((flow, "X", "Z", ps, x, "int64", trep))
+            cases.append((flow, "X", "Z", ps, x, "float64", trep))
+    return cases
+
+
+def compare_representations(chk, cases):
+    """property oracle + correspondence (generated wrapper at the float64 value of the point vs the implementation applied
+    to the representation).  Returns [(case, message)]."""
+    bad = []
+    hist = chk.cov.setdefault("histogram", {})
+    lines, idx = [], []
+    for c in cases:
+        flow, hl, vl, ps, x, rep, trep = c
+        hist["representation:" + rep] = hist.get("representation:" + rep, 0) + 1
+        if trep != "nan":
+            hist["time representation:" + trep] = hist.get("time representation:" + trep, 0) + 1
+        chk.note_case(("representation", flow, hl, vl, tuple(ps), tuple(x), rep, trep), nontrivial=True)
+        for f in oracle_representation(flow, hl, vl, ps, x, rep, trep):
+            bad.append((c, f))
+        for kind in ("velocity", "gradient"):
+            lines.append(gen_line_callable((kind, flow, hl, vl, ps, 0.0, [float(a) for a in x])))
+            idx.append((c, kind))
+    mres = common.run_model(lines, group=GROUP)
+    rejected = 0
+    for (c, kind), m in zip(idx, mres):
+        flow, hl, vl, ps, x, rep, trep = c
+        u, L = make_flow(flow, hl, vl, ps)
+        try:
+            with warnings.catch_warnings():
+                warnings.simplefilter("ignore")
+                got = ("OK", [float(a) for a in np.asarray((u if kind == "velocity" else L)(present_time(trep), present(x, rep)), dtype=float).reshape(-1)])
+        except Exception as e:  # noqa: BLE001
+            got = ("ERR", common.exc_code(e))
+        if got[0] == "ERR" and rep in MAY_BE_REJECTED:
+            rejected += 1
+            continue
+        if got[0] != m[0] or (got[0] == "ERR" and got[1] != m[1]):
+            bad.append((c, f"{FLOWS[flow]} {kind} at {list(x)} as {rep}: implementation {got[0]} {got[1] if got[0] == 'ERR' else got[1][:9]} vs "
+                           f"generated wrapper {m[0]} {m[1] if m[0] == 'ERR' else m[1][:9]}"))
+        elif got[0] == "OK":
+            sc = scale_of((kind, flow, hl, vl, ps, 0.0, [float(a) for a in x]))
+            okc, j = common.vec_close(got[1], m[1], rtol=max(1e-10, rep_rtol(rep)), atol=max(1e-13, rep_rtol(rep)) * sc)
+            if not okc:
+                bad.append((c, f"{FLOWS[flow]} {kind} at {list(x)} as {rep}, entry {j}: implementation {got[1][j] if 0 <= j < len(got[1]) else None!r} vs "
+                               f"generated wrapper {m[1][j] if 0 <= j < len(m[1]) else None!r}"))
+    chk.cov["representations"] = {"cases": len(cases), "kinds": list(REPRESENTATIONS), "time_kinds": list(TIME_REPRESENTATIONS),
+                                  "rejected_by_both_callables": rejected // 2, "may_be_rejected": list(MAY_BE_REJECTED)}
+    return bad
+
+
 # ---- strain increment over the eigenvalue oracle
 def compare_strain_increment(chk, rng, tier):
     import pydrex.utils as utils
@@ -487,6 +675,9 @@ def check_pathline(chk, spec, rec, stats):
             fails.append(f"time stamps: implementation {list(ts)[:4]}... vs model {m[1][:4] if m[0] == 'OK' else m}")
     # ---- runtime-checked clauses (not provable: they are about solve_ivp's trajectory)
     f = rec["f"]
+    if len(ts) == 0:
+        fails.append("get_pathline returned no time stamps at all")
+        return fails
     size = float(np.max(mx - mn))
     if size == 0.0:        # a box that is a single point: lengths are measured against the coordinates themselves
         size = max(float(np.max(np.abs(mx))), 1e-300)
@@ -1176,7 +1367,7 @@ def classify_callable_failure(flow, fails):
     return None
 
 
-def search(chk, rng_seed, extra_specs=(), extra_scenarios=()):
+def search(chk, rng_seed, extra_specs=(), extra_scenarios=(), extra_rep=()):
     """Failing-input search: property oracle on the public API.  Known findings are only
     accepted when the failure has exactly their signature (shear: ratio 2 in the single
     non-zero entry; cell: only the two vertical-row entries / the trace)."""
@@ -1199,6 +1390,23 @@ def search(chk, rng_seed, extra_specs=(), extra_scenarios=()):
                     found.append(({"call": f"pydrex.velocity.{FLOWS[flow]}", "horizontal": hl, "vertical": vl,
                                    "params": [hx(a) for a in ps], "x": [hx(a) for a in x]}, fails))
                     break
+            if len(found) >= 3:
+                return found
+    # the same point in other representations (the disagreeing cases first, then the structured sweep)
+    seen = set()
+    for c in list(extra_rep) + gen_representation_cases(np.random.default_rng([rng_seed, 1804]), "quick"):
+        flow, hl, vl, ps, x, rep, trep = c
+        key = (flow, hl, vl, tuple(ps), tuple(x), rep, trep)
+        if key in seen:
+            continue
+        seen.add(key)
+        fails = oracle_representation(flow, hl, vl, ps, x, rep, trep)
+        if fails:
+            found.append(({"call": f"pydrex.velocity.{FLOWS[flow]}", "horizontal": hl, "vertical": vl, "params": [hx(a) for a in ps],
+                           "x": [hx(a) for a in x], "x_float": [float(a) for a in x], "representation": rep, "time_representation": trep,
+                           "how": "apply both returned callables to the point x presented as `representation` (see present() in harness/props/c18.py) "
+                                  "and as a float64 ndarray; for integer representations also form the Jacobian of the velocity callable from the "
+                                  "six lattice neighbours x +- e_k in that representation"}, fails))
             if len(found) >= 3:
                 return found
     # the letter table
@@ -1226,12 +1434,15 @@ def search(chk, rng_seed, extra_specs=(), extra_scenarios=()):
     # pathlines
     stats = new_stats()
     timeouts = 0
-    for spec in list(extra_specs) + pathline_specs(rng, "quick")[:24]:
+    for spec in list(extra_specs) + pathline_specs(rng, "quick")[:24] + [sp for _, sp in boundary_specs()]:
         if timeouts >= 2 and found:
             break
         rec = run_pathline(spec)
         timeouts += int(rec["exc"] is not None and rec["exc"][0] == "TimeoutError")
-        fails = check_pathline(chk_dummy, spec, rec, stats)
+        try:
+            fails = check_pathline(chk_dummy, spec, rec, stats)
+        except Exception as e:  # noqa: BLE001
+            fails = [f"the returned pathline cannot be evaluated: {type(e).__name__}: {str(e)[:160]}"]
         if rec["exc"] is not None and not is_known_pathline_failure(spec, rec, fails):
             fails.append(f"get_pathline raised {rec['exc'][0]}: {rec['exc'][1]}")
         if fails:
@@ -1377,14 +1588,25 @@ def run(chk):
     refine_broken(chk, br)
     rng = np.random.default_rng(chk.seed)
     chk.cov["trusted_base"] = common.TRUSTED_COMMON + [
-        "VelProxy / UtilsProxy in translator/specs_velocity.py: np.full, a statically non-zero np.pi, and the replacement of "
-        "abs(np.linalg.eigvalsh((L+L^T)/2)).max() by the oracle parameter `eigmax` (the argument of eigvalsh is checked structurally)",
-        "hand-written Model_pathlines.v (public wrappers = generated letter table + generated kernels; _is_inside, _ivp_func, the stateful "
-        "terminal event as a state machine, time-stamp post-processing); tie H = this differential run, incl. a replay of every recorded event call",
+        "VelProxy / UtilsProxy in translator/specs_velocity.py: np.full, a statically non-zero np.pi, the replacement of "
+        "abs(np.linalg.eigvalsh((L+L^T)/2)).max() by the oracle parameter `eigmax` (the argument of eigvalsh is checked structurally); the "
+        "adapters that call the real public wrappers with the letters of two ordinals (XYZxyz) and apply the returned callables, and the "
+        "dispatchers that turn the call made by a functools.partial object into a call of the generated kernel for its index pair",
+        "translator/specs_pathlines.py (tie T of pydrex.pathlines): PathProxy (np.any of comparisons as one compound decision, np.zeros_like, "
+        "np.linspace as start + i*step with the end point stored exactly; NumPy's step == 0 special case not forked on), the user callables and "
+        "the eigenvalue oracle as function parameters of the generated code (applied as f(np.nan, point); anything else fails closed), the "
+        "solve_ivp stand-in that records the request / returns a symbolic path.t, access to the two `nonlocal` variables of the event closure "
+        "through its closure cells, the recording logger; emit_coq.py parameter kind `fun`",
+        "hand-written Model_pathlines.v (wrappers, _is_inside, _ivp_func, _ivp_jac, event state machine, request vector, time stamps): now tied "
+        "by the kernel-checked instance lemmas of Inst_velocity.v (all 36 letter pairs) and Inst_pathlines.v (dimensions 1-3, 1-3 solver time "
+        "stamps, regular_steps None/0-3) to code regenerated from the source; beyond those sizes (longer path.t) by this differential run, "
+        "incl. a replay of every recorded event call through BOTH the hand-written state machine and the generated closure",
         "oracles: numpy.linalg.eigvalsh (hypothesis: largest |eigenvalue| of (L+L^T)/2; eigenpair residuals checked at run time) and "
-        "scipy.integrate.solve_ivp (hypothesis used by the theorems: times start at 0 and strictly decrease; checked on every run). "
-        "dx/dt = u(x), staying in the box, ending at the requested point and strain <= 1.25 max are NOT proved: they are measured on real "
-        "get_pathline runs (see runtime_checked)",
+        "scipy.integrate.solve_ivp (hypotheses used by the theorems, all relative to the generated request and checked on every run: times start "
+        "at t_span[0] = 0 and strictly decrease, the dense output at the start reproduces y0 = final_location; the request actually made is "
+        "compared entry by entry with the generated request vector). dx/dt = u(x) along the numerical trajectory, its distance to the box and "
+        "the quadrature of the strain are NOT proved: they are measured on real get_pathline runs (see runtime_checked); the exact solution of "
+        "the posed problem is proved to stay in the box",
         "hand-written Model_pathline_session.v (get_pathline as a function of its arguments; a call history is the map of the single "
         "call; memoizing variants); tie H = the call-sequence run: every result of every sequence is compared with the extracted "
         "`timestamps` applied to solve_ivp's result for the same request computed on its own (new flow objects, private copy of the "
@@ -1402,8 +1624,13 @@ def run(chk):
         "units), the same sweeps with all flows alive (parameters and the six axis pairs), repeated identical requests (same argument objects, "
         "returned time stamps overwritten by the caller in between, regular_steps varied), interleaved requests of two live flows, one "
         "argument changed at a time with the ndarray objects reused and overwritten in place, lists / tuples / float32 / integer boxes, and "
-        "fixed boundary values (end point on a face / edge / corner / the line u = 0, strain limit 1e-9 and 1e6, regular_steps = 1); every "
+        "fixed boundary values (end point on a face / edge / corner / the line u = 0, strain limit 1e-9 and 1e6, regular_steps = 1), user "
+        "callables that hand back one persistent ndarray per call (results bit-identical to fresh arrays, buffers never written to); every "
         "returned pathline is checked against ITS OWN flow with the same clauses and against the same request computed on its own. "
+        "boundary-value pathlines (35, every run): end points on faces / edges / corners (inflow and outflow side, all three flows), boxes with "
+        "one or all axes degenerate, strain limits 0 / 1e-300 / 1e-12 / 1e9 / reached exactly at a face / 20 (several revolutions of the cell), "
+        "regular_steps 0 and 1, stagnation points. wrappers: letters that are no axis, mixed case, default edge length. every kernel case also "
+        "through the wrapper generated from the source, _is_inside / _ivp_func / _ivp_jac through the generated kernels. "
         "distinct = distinct inputs; non-trivial = some output non-zero")
     bad, path_bad, seq_bad = [], [], []
     stats = new_stats()
@@ -1414,6 +1641,9 @@ def run(chk):
         session = start_sessions_subprocess(scenarios)
         kc = gen_kernel_cases(rng, chk.tier)
         bad += compare_kernels(chk, kc, rtol=1e-10)
+        rep_cases = gen_representation_cases(np.random.default_rng([chk.seed, 1804]), chk.tier)
+        rep_bad = compare_representations(chk, rep_cases)
+        bad += rep_bad
         bad += compare_strain_increment(chk, rng, chk.tier)
         bad += compare_inside(chk, rng, chk.tier)
         bnd = boundary_specs()
@@ -1428,7 +1658,10 @@ def run(chk):
             rec = run_pathline(spec)
             timeouts += int(rec["exc"] is not None and rec["exc"][0] == "TimeoutError")
             stats["pathlines"] += 1
-            fails = check_pathline(chk, spec, rec, stats)
+            try:
+                fails = check_pathline(chk, spec, rec, stats)
+            except Exception as e:  # noqa: BLE001
+                fails = [f"the returned pathline cannot be evaluated: {type(e).__name__}: {str(e)[:160]}"]
             chk.note_case(("pathline", spec[0], spec[1], spec[2], tuple(spec[3]), spec[6].tobytes(), spec[4].tobytes(), spec[5].tobytes(),
                            spec[7], spec[8]), nontrivial=True)
             for sig in rec.get("known", []):
@@ -1527,7 +1760,8 @@ def run(chk):
     if ok and not bad and not path_bad and not seq_bad:
         return
     found = search(chk, chk.seed + 1, extra_specs=[s for s, _ in path_bad if isinstance(s, tuple)][:6],
-                   extra_scenarios=[sc for sc, _ in seq_bad])
+                   extra_scenarios=[sc for sc, _ in seq_bad],
+                   extra_rep=[c for c, _ in bad if isinstance(c, tuple) and len(c) == 7 and isinstance(c[0], int)][:40])
     if found:
         for inp, fails in found[:3]:
             chk.replay({"kind": "property-violation", "input": inp, "observed": fails,
@@ -1580,6 +1814,10 @@ def replay(d):
         got = float(utils.strain_increment(dt, Lm))
         if abs(got - want) > 1e-10 * max(1.0, want):
             fails.append(f"strain_increment = {got!r}, expected {want!r}")
+    elif "representation" in inp:
+        flow = FLOWS.index(inp["call"].split(".")[-1])
+        fails = oracle_representation(flow, inp["horizontal"], inp["vertical"], [unhx(a) for a in inp["params"]],
+                                      np.array([unhx(a) for a in inp["x"]]), inp["representation"], inp.get("time_representation", "nan"))
     else:
         flow = FLOWS.index(inp["call"].split(".")[-1])
         ps = [unhx(a) for a in inp["params"]]
